@@ -27,6 +27,7 @@ type Rig interface {
 	Quiet() bool
 	Snapshot() comp.VerifSnap
 	Export()
+	Memory() []int8
 }
 
 func newRig(variant string, cores, mem int) Rig {
@@ -127,6 +128,13 @@ func runSchedule(s rigSchedule) (snaps [][]byte, panicMsg string, stuck bool) {
 
 // runScheduleT also returns the cycle in which the rig became quiet (part of the result C08 compares).
 func runScheduleT(s rigSchedule) (snaps [][]byte, panicMsg string, stuck bool, end int) {
+	snaps, panicMsg, stuck, end, _, _ = runScheduleM(s)
+	return
+}
+
+// runScheduleM also returns main memory after the final export and the value each write carried.
+func runScheduleM(s rigSchedule) (snaps [][]byte, panicMsg string, stuck bool, end int, mem []int8, written map[int32][]int8) {
+	written = map[int32][]int8{}
 	rec := &snapRecorder{}
 	defer func() {
 		if p := recover(); p != nil {
@@ -165,7 +173,11 @@ func runScheduleT(s rigSchedule) (snaps [][]byte, panicMsg string, stuck bool, e
 					rig.StartRead(c, e.Addr)
 				} else {
 					rig.StartWrite(c, e.Addr, val)
+					written[e.Addr] = append(written[e.Addr], val)
 					val++
+					if val == 0 { // the initial memory is zero: keep written values distinguishable from it
+						val = 1
+					}
 				}
 			}
 			if len(queue[c]) > 0 {
@@ -177,10 +189,10 @@ func runScheduleT(s rigSchedule) (snaps [][]byte, panicMsg string, stuck bool, e
 		if next >= len(evs) && !pendingQ && rig.Quiet() {
 			rig.Export()
 			rec.add(rig.Snapshot())
-			return rec.snaps, "", false, cycle
+			return rec.snaps, "", false, cycle, append([]int8(nil), rig.Memory()...), written
 		}
 	}
-	return rec.snaps, "", true, limit
+	return rec.snaps, "", true, limit, nil, written
 }
 
 func offsetsGrid(full bool) []int {
